@@ -21,6 +21,7 @@ from ..anf import Rat, sym
 from ..guards import (G, TRUE, FALSE, g_and, g_not, g_or, g_equiv, g_implies, g_sat, compare, canon_sign, OPS)
 from ..gvn import Frame, Obj, PW, Vec, cases_of, veq, mk_pw, Unsupported
 from ..model import keep
+from ..intervals import single_atom
 from .common import RuleCtx, _short, stored_names
 
 C = Rat.const
@@ -331,7 +332,265 @@ def run(ctx):
     else:
         res.violation("Z5", fk.module, fk.name, fk.node, "the selected x values are not converted to indices of the x column", _short(val, 200),
                       "map_index(points[:, 0], np.array(getPoints(...)))", construct="knees mapping")
+    res.rule("Z6", "candidates of one round are split into groups at the gaps >= W: with G = positions of the candidates left of such a gap, the groups are the "
+                   "position intervals [0, G0], (G0, G1], ..., (G_last, end]; one pick per group => same-round picks are >= W apart in x")
+    _groups(rc, fi, main, arr_name)
     res.assumptions += ["strictly increasing non-negative integer x, y in [0, 1], dx, dy, dz > 0", "W, H >= 0"]
     res.not_decided += ["termination and the iteration bound of the selection loop (needs: points_added > 0 => len(points) decreases - a fact about numpy masks on runtime data)",
-                        "x-separation among same-round candidates", "validity for non-integer x"]
+                        "validity for non-integer x"]
     res.require_instances("C10 obligations", len(res.obligations), 8)
+
+
+
+def _groups(rc: RuleCtx, fi, main, arr_name: str):
+    """Z6.  The per-round grouping, read off the evaluated loop over the group boundaries:
+       G  = np.argwhere(diff(candidates.x) >= W)        positions left of a gap
+       B  = hstack([a0], G (+c), [aL])                  group boundaries
+       group i = a mask on candidates.x or a slice of candidates, turned into a position interval [lo, hi)
+    and compared, for the first, a middle and the last group, with [0, G0+1), [G_{i-1}+1, G_i+1), [G_last+1, len)."""
+    res = rc.res
+    mod = fi.module
+    from .common import bind_loop
+    # the candidates of a round: arr[arr[:, 2] >= z]
+    cands = [st.targets[0].id for st in ast.walk(main) if isinstance(st, ast.Assign) and len(st.targets) == 1 and isinstance(st.targets[0], ast.Name)
+             and isinstance(st.value, ast.Subscript) and isinstance(st.value.value, ast.Name) and st.value.value.id == arr_name
+             and isinstance(st.value.slice, ast.Compare)]
+    if len(set(cands)) != 1:
+        raise AnalysisError("zmethod.getPoints: the per-round candidate selection was not found")
+    cname = cands[0]
+    blocks = {}
+    for n in ast.walk(main):
+        for fld in ("body", "orelse"):
+            blk = getattr(n, fld, None)
+            if isinstance(blk, list):
+                for b_ in blk:
+                    blocks[id(b_)] = blk
+    gl = None
+    for f_ in [n for n in ast.walk(main) if isinstance(n, ast.For)]:
+        if any(isinstance(st, ast.Assign) and isinstance(st.value, ast.Subscript) and isinstance(st.value.value, ast.Name) and st.value.value.id == cname
+               for st in ast.walk(f_)):
+            gl = f_
+            break
+    if gl is None:
+        raise AnalysisError("zmethod.getPoints: the loop over the candidate groups of a round was not found")
+    ev = rc.new_eval()
+    rc.ev = ev
+    C3 = Vec([ev.symbol("c.x", True), ev.symbol("c.y", True), ev.symbol("c.z", True)], "point")
+    ev.len_map = {"c.x": sym("Cn"), "c.y": sym("Cn"), "c.z": sym("Cn")}
+    W = ev.symbol("W")
+    env = {cname: C3}
+    # names used for the width: bind every scalar name read in the gap test to W (role: the only scalar compared with diff(x))
+    parent = blocks[id(gl)]
+    k = parent.index(gl)
+    fr = Frame(ev, fi, 0)
+    # the gap positions are computed in an enclosing block: evaluate every assignment (in main, outside the group block) that reads the candidates
+    outer = [st for st in ast.walk(main) if isinstance(st, ast.Assign) and st not in parent and len(st.targets) == 1 and isinstance(st.targets[0], ast.Name)
+             and any(isinstance(n, ast.Name) and n.id == cname for n in ast.walk(st.value)) and st.targets[0].id != cname
+             and not any(st in ast.walk(x) for x in parent)]
+    scal = set()
+    for st in outer + list(parent[:k]):
+        for n in ast.walk(st):
+            if isinstance(n, ast.Name) and isinstance(n.ctx, ast.Load) and n.id not in (cname, "np", "numpy", "len") and n.id not in {s_.targets[0].id for s_ in outer if isinstance(s_, ast.Assign)}:
+                scal.add(n.id)
+    for nme in scal:
+        env.setdefault(nme, W)
+    try:
+        for st in outer:
+            if getattr(st, "lineno", 0) < getattr(gl, "lineno", 0):
+                fr.block([st], env, TRUE)
+        fr.block([st for st in parent[:k] if isinstance(st, (ast.Assign, ast.Expr))], env, TRUE)
+        b = bind_loop(ev, fr, gl, env)
+    except Unsupported as e:
+        raise AnalysisError(f"zmethod.getPoints: grouping code not modelled: {e}")
+    if b is None:
+        raise AnalysisError("zmethod.getPoints: group loop header has no recognised shape")
+    benv = dict(env)
+    benv.update(b.bindings)
+    for nme, v in list(benv.items()):
+        if isinstance(v, Vec) and v.kind == "list":
+            benv[nme] = ev.symbol(nme + "@list")
+    for nme in stored_names(gl):
+        if nme in env and nme not in b.bindings and isinstance(env[nme], Rat) and nme not in (cname,):
+            pass
+    try:
+        out = ev.eval_loop_body(fi, gl, benv)
+    except Unsupported as e:
+        raise AnalysisError(f"zmethod.getPoints: group loop body not modelled: {e}")
+    # the group's member set: the (first) value bound in the body that is a mask / slice of the candidates
+    grp = None
+    for nme, v in out.env.items():
+        if nme in benv and vkey_eq(benv[nme], v):
+            continue
+        ok_all = True
+        descr = []
+        for g_, c_ in cases_of(v):
+            if not (isinstance(c_, Vec) and len(c_.items) == 3 and isinstance(c_.items[0], Rat)):
+                ok_all = False
+                break
+            a_ = single_atom(c_.items[0])
+            if a_ is None or a_.name not in ("mask", "slice") or not a_.args[0].equals(C3.items[0]):
+                ok_all = False
+                break
+            descr.append((g_, a_))
+        if ok_all and descr:
+            grp = descr
+            break
+    if grp is None:
+        raise AnalysisError("zmethod.getPoints: the members of a candidate group are not a mask / slice of the round's candidates - shape not recognised")
+    # ---- boundaries B and gap positions G -----------------------------------------------------------------------
+    Bat = {}
+    for _g, a_ in grp:
+        for x_ in (a_.args[1:] if a_.name == "slice" else [ev.to_rat(ev.bool_registry.get(a_.args[1].atoms()[0].extra, TRUE))]):
+            pass
+    idx = b.idx
+
+    def find_B(r: Rat):
+        for at_ in r.all_atoms():
+            if at_.kind == "fn" and at_.name in ("at", "item") and len(at_.args) == 2:
+                d_ = at_.args[1].sub(idx).is_const()
+                if d_ is not None and d_ in (0, 1):
+                    Bat[int(d_)] = (at_, at_.args[0])
+    intervals = []
+    for g_, a_ in grp:
+        lo = hi = None
+        if a_.name == "slice":
+            lo, hi = a_.args[1], a_.args[2]
+            find_B(lo)
+            find_B(hi)
+            if hi.symbols() == {"None"}:
+                hi = sym("Cn")
+        else:
+            gg = ev.bool_registry.get(a_.args[1].atoms()[0].extra)
+            items = gg.a if (gg is not None and gg.kind == "and") else ((gg,) if gg is not None else ())
+            lo = C(0)
+            for x_ in items:
+                if x_.kind != "sign":
+                    raise AnalysisError("zmethod.getPoints: group mask is not a conjunction of comparisons")
+                # canonical form: (at(c.x, J) - c.x) in signs   <=>   c.x (<,<=,..) at(c.x, J)
+                q = x_.a
+                cx = C3.items[0]
+                rest = q.add(cx)           # at(c.x, J)   when q = at(c.x, J) - c.x
+                sg = x_.b
+                if not (single_atom(rest) is not None and single_atom(rest).name == "at" and single_atom(rest).args[0].equals(cx)):
+                    rest = cx.sub(q)       # q = c.x - at(c.x, J)
+                    sg = frozenset(-s_ for s_ in sg)
+                    if not (single_atom(rest) is not None and single_atom(rest).name == "at" and single_atom(rest).args[0].equals(cx)):
+                        raise AnalysisError("zmethod.getPoints: group mask does not compare the candidates' x with the x of a boundary candidate")
+                J = single_atom(rest).args[1]
+                find_B(J)
+                # at(c.x, J) - c.x in sg ; x strictly increasing along the candidates
+                if sg == OPS[">="]:          # c.x <= x[J]  : positions <= J
+                    hi = J + C(1)
+                elif sg == OPS[">"]:         # c.x <  x[J]  : positions <  J
+                    hi = J
+                elif sg == OPS["<"]:         # c.x >  x[J]  : positions >  J
+                    lo = J + C(1)
+                elif sg == OPS["<="]:        # c.x >= x[J]
+                    lo = J
+                else:
+                    raise AnalysisError("zmethod.getPoints: group mask comparator not recognised")
+            if hi is None:
+                hi = sym("Cn")
+        intervals.append((g_, lo, hi))
+    if not Bat:
+        raise AnalysisError("zmethod.getPoints: the group bounds do not read a boundary array at the loop position - shape not recognised")
+    Bv = next(iter(Bat.values()))[1]
+    ba = single_atom(Bv)
+    dedup = False
+    if ba is not None and ba.name == "np.unique":
+        dedup = True
+        ba = single_atom(ba.args[0])
+    if not (ba is not None and ba.name in ("np.hstack", "np.concatenate")):
+        raise AnalysisError(f"zmethod.getPoints: group boundaries {_short(Bv, 80)} are not hstack([first], gaps, [last]) - shape not recognised")
+    parts = single_atom(ba.args[0])
+    if not (parts is not None and parts.name == "vec" and len(parts.args) == 3):
+        raise AnalysisError("zmethod.getPoints: group boundaries are not built from three parts")
+    p0, pG, pL = [single_atom(x_) for x_ in parts.args]
+    if not (p0 is not None and p0.name == "vec" and len(p0.args) == 1 and pL is not None and pL.name == "vec" and len(pL.args) == 1):
+        raise AnalysisError("zmethod.getPoints: first / last group boundary not recognised")
+    a0, aL = p0.args[0], pL.args[0]
+    Grest, cshift = split_const_(parts.args[1])
+    Ga = single_atom(Grest)
+    if not (Ga is not None and Ga.name.endswith("argwhere")):
+        raise AnalysisError("zmethod.getPoints: the interior group boundaries are not np.argwhere(<gap test>) - shape not recognised")
+    gap = ev.bool_registry.get(Ga.args[0].atoms()[0].extra) if Ga.args and Ga.args[0].atoms() else None
+    gap_ok = gap is not None and gap.kind == "sign" and gap.b == OPS[">="] and any(x_.name == "np.diff" for x_ in gap.a.all_atoms()) \
+        and gap.a.add(W).atoms() and not any(s_ == "W" for s_ in gap.a.add(W).symbols())
+    if gap_ok:
+        res.ok("Z6", "zmethod.getPoints:gaps", "group boundaries are the positions where the next candidate is >= W away in x")
+    else:
+        res.violation("Z6", mod, fi.name, gl, "the groups of a round are not cut at the gaps of at least W between consecutive candidates", _short(gap, 200),
+                      "np.argwhere(np.diff(candidates.x) >= W)", construct="gap test")
+        return
+    # symbolic gap positions: Gm = G[i-1], Gi = G[i], G0, Glast
+    Gm, Gi, G0, Gl = sym("G[i-1]"), sym("G[i]"), sym("G[0]"), sym("G[last]")
+    cs = C(cshift)
+    regimes = {"first": ({0: a0, 1: G0 + cs}, C(0), G0 + C(1), "i == 0"),
+               "middle": ({0: Gm + cs, 1: Gi + cs}, Gm + C(1), Gi + C(1), "1 <= i < number of gaps"),
+               "last": ({0: Gl + cs, 1: aL}, Gl + C(1), sym("Cn"), "i == number of gaps")}
+    all_ok = True
+    for rname, (subB, want_lo, want_hi, when) in regimes.items():
+        first = rname == "first"
+        picked = None
+        for g_, lo, hi in intervals:
+            # the case of the piecewise member set that applies in this regime
+            zero = canon_sign(idx, OPS["=="])
+            if g_.kind == "true" or (first and g_implies(zero, g_)) or ((not first) and g_implies(g_not(zero), g_)):
+                picked = (lo, hi)
+        if picked is None:
+            raise AnalysisError("zmethod.getPoints: no member set applies to the " + rname + " group")
+        mp = {}
+        for d_, (at_, _B) in Bat.items():
+            mp[at_.skey] = subB[d_]
+
+        def sub_at(r: Rat):
+            out_ = r
+            for at_k, val in mp.items():
+                for at_ in r.all_atoms():
+                    if at_.skey == at_k:
+                        out_ = _replace_atom(out_, at_, val)
+            return out_
+        lo_f, hi_f = sub_at(picked[0]), sub_at(picked[1])
+        if first and not a0.is_zero() and lo_f.equals(a0):
+            pass
+        if lo_f.equals(want_lo) and hi_f.equals(want_hi):
+            continue
+        all_ok = False
+        res.violation("Z6", mod, fi.name, gl,
+                      f"the {rname} group of a round ({when}) holds the candidates at positions [{_short(lo_f, 40)}, {_short(hi_f, 40)}) instead of "
+                      f"[{_short(want_lo, 40)}, {_short(want_hi, 40)}): a candidate is put into the group on the other side of a gap, so two picks of one round "
+                      "can be closer than W in x" + (" (boundaries de-duplicated with np.unique: shown for rounds without duplicates)" if dedup else ""),
+                      f"[{_short(lo_f, 60)}, {_short(hi_f, 60)})", f"[{_short(want_lo, 60)}, {_short(want_hi, 60)})", construct=f"group interval {rname}")
+    if all_ok and dedup:
+        raise AnalysisError("zmethod.getPoints: group boundaries are de-duplicated with np.unique - the effect of duplicates is not decided")
+    if all_ok:
+        res.ok("Z6", "zmethod.getPoints:groups", "groups are [0, G0], (G0, G1], ..., (G_last, end]: every gap >= W separates two groups")
+
+
+def vkey_eq(a, b) -> bool:
+    from ..gvn import vkey
+    return vkey(a) == vkey(b)
+
+
+def split_const_(r: Rat):
+    from ..intervals import split_const
+    rest, c = split_const(r)
+    return rest, c
+
+
+def _replace_atom(r: Rat, atom, val: Rat) -> Rat:
+    """r with one (non-nested) atom replaced by a value: through a fresh symbol and substitution."""
+    tmp = "__tmp_atom__"
+    # build r' where atom -> sym(tmp): use linearity via subst on a renamed copy
+    from ..anf import Rat as _R
+
+    def conv_poly(p):
+        acc = _R.const(0)
+        for m, c in p.items():
+            term = _R.const(c)
+            for at_, e_ in m:
+                base = val if at_.skey == atom.skey else _R.from_atom(at_)
+                term = term.mul(base.pow(e_))
+            acc = acc.add(term)
+        return acc
+    return conv_poly(r.num).div(conv_poly(r.den))
